@@ -163,6 +163,7 @@ variables
    hist = [ii \in Insts |-> InitHist],
    exc = FALSE, ret = 0, l = 1, cbn = 0, ncalls = 0, nextp = 1, budget = 0,
    gvmemo = [gg \in Def.guards |-> "u"],
+   gvc = [gg \in Def.condguards |-> FALSE],                     \* guard values that decide conditional deferral (backmp11 is_event_deferred), fixed per call
    obs = <<>>, wasreset = FALSE, path = <<>>, nothrow = FALSE,
    ledger = [ii \in Insts |-> [kk \in LedgerKeys |-> 0]],      \* entries minus exits per (machine, state)
    encnt = [ii \in Insts |-> [kk \in LedgerKeys |-> 0]],       \* number of entries per (machine, state): the datum the instrumented states carry
@@ -185,8 +186,9 @@ define {
   HasLine == l <= NL
   \* mp11: some active state (recursively) defers this event type
   RECURSIVE IsDeferredM(_, _, _)
+  DefersNow(mm, st, et) == DefersEv(mm, st, et) /\ \A cd \in MD(mm).defcond[st] : (cd[1] = et) => gvc[cd[2]]
   IsDeferredM(ii, mm, et) == running[ii][mm] /\ \E rr \in 1..NReg(mm) :
-        LET st == active[ii][mm][rr] IN DefersEv(mm, st, et) \/ (IsSub(mm, st) /\ IsDeferredM(ii, st, et))
+        LET st == active[ii][mm][rr] IN DefersNow(mm, st, et) \/ (IsSub(mm, st) /\ IsDeferredM(ii, st, et))
   \* flags
   RECURSIVE FlagOrB(_, _, _)
   FlagOrB(ii, mm, fl) == \E rr \in 1..NReg(mm) : LET st == active[ii][mm][rr] IN
@@ -707,6 +709,7 @@ M0: while (TRUE) {
              ncalls := ncalls + 1; cbn := 0; obs := <<>>; wasreset := FALSE;
              gvmemo := [gg \in Def.guards |-> IF gg \in Def.sticky THEN gvmemo[gg] ELSE "u"];
              lastcall := [op |-> "start", i |-> ii, e |-> "", p |-> 0]; nothrow := TRUE;
+             gvc := IF Mode = "trace" THEN [gg \in Def.condguards |-> IF Def.gidx[gg] <= Len(Trace[l-1].gv) THEN Trace[l-1].gv[Def.gidx[gg]] ELSE FALSE] ELSE gvc;
              pre := [blocked |-> FALSE, quiet |-> TRUE, act |-> active[ii], all |-> <<active, mq, dq, pool, hist, running>>];
              call StartRoot(ii);
           };
@@ -718,17 +721,19 @@ M0: while (TRUE) {
              ncalls := ncalls + 1; cbn := 0; obs := <<>>; wasreset := FALSE;
              gvmemo := [gg \in Def.guards |-> IF gg \in Def.sticky THEN gvmemo[gg] ELSE "u"];
              lastcall := [op |-> "stop", i |-> ii, e |-> "", p |-> 0]; nothrow := TRUE;
+             gvc := IF Mode = "trace" THEN [gg \in Def.condguards |-> IF Def.gidx[gg] <= Len(Trace[l-1].gv) THEN Trace[l-1].gv[Def.gidx[gg]] ELSE FALSE] ELSE gvc;
              pre := [blocked |-> FALSE, quiet |-> TRUE, act |-> active[ii], all |-> <<active, mq, dq, pool, hist, running>>];
              call StopRoot(ii);
           };
        } or {
           \* process_event
-          with (cc \in IF Mode = "trace" THEN (IF HasLine /\ CurLine.k = "call" /\ CurLine.op = "pe" THEN {[i |-> CurLine.i, e |-> CurLine.e, p |-> CurLine.p]} ELSE {})
-                       ELSE {[i |-> jj, e |-> ee, p |-> nextp] : jj \in {kk \in Insts : running[kk][Def.root] /\ "pe" \in Apis}, ee \in EventTypes}) {
-             if (Mode = "trace") { l := l + 1; } else { await ncalls < MaxCalls; budget := IF BudgetPerCall \/ ncalls = 0 THEN Budget ELSE budget; nextp := nextp + 1; path := Append(path, [call |-> "pe", i |-> cc.i, e |-> cc.e, p |-> cc.p]); };
+          with (cc \in IF Mode = "trace" THEN (IF HasLine /\ CurLine.k = "call" /\ CurLine.op = "pe" THEN {[i |-> CurLine.i, e |-> CurLine.e, p |-> CurLine.p, gc |-> gvc]} ELSE {})
+                       ELSE {[i |-> jj, e |-> ee, p |-> nextp, gc |-> gx] : jj \in {kk \in Insts : running[kk][Def.root] /\ "pe" \in Apis}, ee \in EventTypes, gx \in [Def.condguards -> BOOLEAN]}) {
+             if (Mode = "trace") { l := l + 1; } else { await ncalls < MaxCalls; budget := IF BudgetPerCall \/ ncalls = 0 THEN Budget ELSE budget; nextp := nextp + 1; path := Append(path, [call |-> "pe", i |-> cc.i, e |-> cc.e, p |-> cc.p, gc |-> cc.gc]); };
              ncalls := ncalls + 1; cbn := 0; obs := <<>>; wasreset := FALSE;
              gvmemo := [gg \in Def.guards |-> IF gg \in Def.sticky THEN gvmemo[gg] ELSE "u"];
              lastcall := [op |-> "pe", i |-> cc.i, e |-> cc.e, p |-> cc.p]; nothrow := FALSE;
+             gvc := IF Mode = "trace" THEN [gg \in Def.condguards |-> IF Def.gidx[gg] <= Len(Trace[l-1].gv) THEN Trace[l-1].gv[Def.gidx[gg]] ELSE FALSE] ELSE cc.gc;
              pre := [blocked |-> Blocked(cc.i, Def.root, cc.e), quiet |-> \A mm \in Machines : ~processing[cc.i][mm], act |-> active[cc.i], all |-> <<active, mq, dq, pool, hist, running>>];
              call PEI(cc.i, Def.root, [t |-> cc.e, p |-> cc.p], IF IsB THEN {"D"} ELSE {"direct"});
           };
@@ -751,6 +756,7 @@ M0: while (TRUE) {
              ncalls := ncalls + 1; cbn := 0; obs := <<>>; wasreset := FALSE;
              gvmemo := [gg \in Def.guards |-> IF gg \in Def.sticky THEN gvmemo[gg] ELSE "u"];
              lastcall := [op |-> cc.op, i |-> cc.i, e |-> "", p |-> 0]; nothrow := FALSE;
+             gvc := IF Mode = "trace" THEN [gg \in Def.condguards |-> IF Def.gidx[gg] <= Len(Trace[l-1].gv) THEN Trace[l-1].gv[Def.gidx[gg]] ELSE FALSE] ELSE gvc;
              pre := [blocked |-> FALSE, quiet |-> TRUE, act |-> active[cc.i], all |-> <<active, mq, dq, pool, hist, running>>];
              if (IsB) { call DrainB(cc.i, Def.root, IF cc.op = "drain1" THEN 1 ELSE 0); }
              else { call PoolM(cc.i, Def.root, IF cc.op = "drain1" THEN 1 ELSE 0); };
